@@ -55,6 +55,8 @@ func (o Op) String() string {
 		return fmt.Sprintf("FailGen(%s,call=%d/%s,errno=%s,short=%v)", o.Variant, o.Fault.Call, o.Fault.Fn, o.Fault.Errno, o.Fault.Short)
 	case "DeleteGen":
 		return "Delete(" + o.File + ")"
+	case "MangleGen":
+		return "MangleGen(" + o.File + ")"
 	case "Plant":
 		return "Plant(" + strings.Join(sortedKeys(o.Plant), ",") + ")"
 	}
